@@ -263,7 +263,19 @@ pub fn abs_env_of_files(files: &BTreeMap<Vec<u8>, Vec<u8>>) -> AbsEnv {
 /// The platform's cache restore between two builds (given by C01's quantifier):
 /// cache=true keeps dir + metadata (without types) + SBOM files; launch-only keeps the metadata
 /// file only (without types); everything else vanishes. store.toml is kept.
+/// The restore exactly as the properties' quantifiers describe it: a launch-only layer keeps its
+/// metadata file only.
 pub fn restore(s: &Snapshot) -> Snapshot {
+    restore_with(s, false)
+}
+
+/// The restore as the buildpack spec words it for launch layers: the metadata file AND the layer's
+/// SBOM files come back, the directory does not.
+pub fn restore_sboms(s: &Snapshot) -> Snapshot {
+    restore_with(s, true)
+}
+
+fn restore_with(s: &Snapshot, launch_sboms: bool) -> Snapshot {
     let mut out = Snapshot::new();
     if let Some(n) = s.get("store.toml") {
         out.insert("store.toml", n.clone());
@@ -286,9 +298,11 @@ pub fn restore(s: &Snapshot) -> Snapshot {
             // layer's SBOM files (the lifecycle copies them next to a restored <layer>.toml); the
             // directory does not
             out.insert(&format!("{name}.toml"), stripped);
-            let prefix = format!("{name}.sbom.");
-            for (k, n) in s.filter_top(|top| top.starts_with(prefix.as_bytes())).0 {
-                out.0.insert(k, n);
+            if launch_sboms {
+                let prefix = format!("{name}.sbom.");
+                for (k, n) in s.filter_top(|top| top.starts_with(prefix.as_bytes())).0 {
+                    out.0.insert(k, n);
+                }
             }
         }
     }
